@@ -1,19 +1,32 @@
 """C02 — parsing terminates with a tree or a parsing error, never a crash."""
 import json, re, sys, traceback
-from tools.harness import common, lr, gen, streams, extra
+from tools.harness import common, lr, gen, streams, extra, slylex
 import itertools
 from tools.harness.common import DIALECTS
+from tools.props import c02_lexprobe
 
 ID = 'C02'
-TARGETS = ['MindsVerif.Props.C02']
+TARGETS = ['MindsVerif.Props.C02', 'MindsVerif.Props.C02Lex']
 THEOREMS = ['MindsVerif.Props.C02.C02_partial_sqlite', 'MindsVerif.Props.C02.C02_partial_mysql',
             'MindsVerif.Props.C02.C02_partial_mindsdb', 'MindsVerif.Props.C02.C02_driver_generic',
             'MindsVerif.Props.C02.C02_review_raise_never_none', 'MindsVerif.Props.C02.C02_review_raise_never_none_sqlite',
-            'MindsVerif.Props.C02.C02_review_raise_never_none_mysql']
+            'MindsVerif.Props.C02.C02_review_raise_never_none_mysql',
+            # lexer half: the SLY tokenize loop over the regenerated master regexes (Props/C02Lex.lean)
+            'MindsVerif.Props.C02Lex.C02_lexer_generic', 'MindsVerif.Props.C02Lex.C02_lexer_total_sqlite',
+            'MindsVerif.Props.C02Lex.C02_lexer_total_mysql', 'MindsVerif.Props.C02Lex.C02_lexer_total_mindsdb',
+            'MindsVerif.Props.C02Lex.C05_lexer_tiles', 'MindsVerif.Props.C02Lex.C05_lexer_chain',
+            'MindsVerif.Props.C02Lex.C02_lexer_error_spec',
+            'MindsVerif.Props.C02Lex.nonNull_sqlite', 'MindsVerif.Props.C02Lex.nonNull_mysql', 'MindsVerif.Props.C02Lex.nonNull_mindsdb',
+            'MindsVerif.Props.C02Lex.supported_sqlite', 'MindsVerif.Props.C02Lex.supported_mysql', 'MindsVerif.Props.C02Lex.supported_mindsdb',
+            'MindsVerif.Props.C02Lex.no_literals_no_remapping', 'MindsVerif.Props.C02Lex.C02_lexer_example_long_s']
 ASSUME = [
     'theorem covers the table-driven runtime only (no stuck state, error_info well-formed); the semantic '
     'actions, AST constructors, ErrorHandling and termination are covered by the crash search of this run, not by a theorem',
     'Parser.parse is hand-modelled; tie = LR correspondence stream',
+    'lexer half: Lexer.tokenize (sly/lex.py) is hand-modelled (Model/SlyLex.lean, Model/Re.lean = backtracking matcher with the '
+    'priority semantics of re); the rule list is regenerated each run from the parse tree (re._parser) of the live master regex, '
+    'one-character atoms tabulated with the real re engine over all code points (tools/extract/x_relex.py, trusted to transcribe); '
+    'tie = stream slylex (token types, boundaries, error index); token values / line numbers / the error message are outside this model',
 ]
 
 
@@ -35,12 +48,16 @@ def probe_case(dialect, text):
     from mindsdb_sql.parser.ast.base import ASTNode
     from sly.lex import LexError
     try:
-        r = parse_sql(text, dialect)
+        with common.time_limit(60):
+            r = parse_sql(text, dialect)
         if not isinstance(r, ASTNode):
             return dict(desc='parse_sql returned a non-tree value %r' % type(r).__name__, dialect=dialect,
                         text=text, site=dict(exc='non-tree', file='', func=''), **{'class': 'non-tree'})
     except (ParsingException, LexError):
         return None
+    except common.HangDetected:
+        return dict(desc='parse_sql did not return within 60 s (hang)', dialect=dialect, text=text,
+                    site=dict(exc='hang', file='', func='parse_sql'), msg='hang', **{'class': 'hang/parse_sql'})
     except Exception as e:
         s = site_of(e)
         m = msg_of(e)
@@ -56,6 +73,7 @@ def kf_match(k, f):
 
 def run(chk):
     quick = chk.tier == 'quick'
+    common.install_lexer_guard()   # a lexer that stops advancing is reported as a hang, it cannot stall the check
     deep = (not quick) or bool(chk.broken())
     n_mut, n_sent = (500, 300) if not deep else (15000, 10000)
     # known findings: do the witnesses still fail?
@@ -69,7 +87,9 @@ def run(chk):
         R = lr.real(d)
         fam = [c for f in extra.layout_variant_stream(d, rng, 20 if not deep else 300) for c in f]
         more = itertools.chain(extra.append_terminal_stream(d, rng, 4 if not deep else 80), fam,
-                               extra.recase_stream(d, rng, 80 if not deep else 2000), extra.numeric_position_stream(d, rng))
+                               extra.recase_stream(d, rng, 80 if not deep else 2000), extra.numeric_position_stream(d, rng),
+                               # keywords respelled with the case-folding look-alikes the live lexer accepts (Gen/LexRe atom sets)
+                               slylex.lookalike_texts(d, rng, 150 if not deep else 3000))
         for case in itertools.chain(streams.statement_stream(d, rng, n_mut, n_sent), more):
             text = case['text']
             s2 = re.sub(r'[\s;]+$', '', text)
@@ -131,6 +151,8 @@ def run(chk):
             if f:
                 chk.classify(f, kf_match)
                 chk.fail(f)
+    # lexer side: every code-point class at every kind of position, regex blow-up growth (tools/props/c02_lexprobe.py)
+    c02_lexprobe.run(chk, DIALECTS, kf_match)
     try:
         outs = common.lean_run('LR', lines)
         diverged, first = 0, None
@@ -145,8 +167,11 @@ def run(chk):
         chk.corr_result('lr', len(lines), diverged, first, dist)
     except Exception as e:
         chk.oblige('corr:lr', 'correspondence', False, 'driver failed: %s' % e)
+    # lexer half: regex-level model of Lexer.tokenize against the real lexers
+    slylex.stream(chk, 350 if not deep else 6000)
     for (d, case, py) in metas[:2] + metas[-2:]:
         chk.samples.append(dict(dialect=d, src=case['src'], text=case['text'][:200], impl=py['kind']))
+    chk.samples.append(dict(theorem='C02_lexer_full c := ∀ s, (lex c s ends in ok or err) ∧ (ok segs → flat segs = s ∧ Chain s.length 0 (tokensFrom 0 segs)) ∧ (err i segs → i < s.length ∧ flat segs = s.take i ∧ s[i] not ignorable ∧ no rule matches at i); proved for every c with allNonNull (kernel-decided on Gen/LexRe_<d>)'))
     chk.samples.append(dict(theorem='C02_driver T := ∀ mode bad toks fuel, (∀ x ∈ toks, x ≠ 0) → match parse T mode bad toks fuel with | .stuck _ => False | .none_ e _ => e ≠ none | .synErr e _ => (∀ i, e.bad = some i → i < toks.length) ∧ (e.bad = none → bad = false) | _ => True'))
     return chk.finish(assumptions=ASSUME)
 
@@ -157,6 +182,11 @@ def replay(path):
     if not f:
         print(json.dumps(data, indent=1)[:3000])
         return 1
-    r = probe_case(f['dialect'], f['text'])
+    if f.get('stream') == 'slylex':
+        line, kind = slylex.real(f['dialect'], ''.join(chr(c) for c in f['cps']))
+        bad = kind in ('hang', 'exc')
+        print('REPRODUCED' if bad else 'not reproduced', line[:300])
+        return 1 if bad else 0
+    r = c02_lexprobe.replay_failure(f) if f.get('probe') in ('lex-codepoint', 'lex-blowup') else probe_case(f['dialect'], f['text'])
     print('REPRODUCED' if r else 'not reproduced', json.dumps(r or f)[:600])
     return 1 if r else 0
